@@ -31,7 +31,7 @@ func DecodeGrouped(data datatype.Grouped, application uint32, dictionary *dict.P
 			return nil, err
 		}
 		g.AVP = append(g.AVP, avp)
-		n += avp.Len()
+		n += avp.wireLen()
 	}
 	// TODO: handle nested groups?
 	return g, nil
